@@ -64,13 +64,23 @@ func ruleJoin(c *Ctx, rule string) {
 				}
 				for _, b := range h.Blocks {
 					for _, ins := range b.Instrs {
-						s, ok := ins.(*ssa.Send)
-						if !ok {
+						// the report: a send, or closing a "done" channel (also deferred)
+						var repChan ssa.Value
+						isClose := false
+						switch x := ins.(type) {
+						case *ssa.Send:
+							repChan = x.Chan
+						case ssa.CallInstruction:
+							if bi, isB := x.Common().Value.(*ssa.Builtin); isB && bi.Name() == "close" && len(x.Common().Args) == 1 {
+								repChan, isClose = x.Common().Args[0], true
+							}
+						}
+						if repChan == nil {
 							continue
 						}
 						// the channel, in f's terms: through a captured variable or through a parameter bound at the go statement
 						var chans []ssa.Value
-						for _, o := range p.Origins(s.Chan, eng.Plain) {
+						for _, o := range p.Origins(repChan, eng.Plain) {
 							if pa, isP := o.(*ssa.Parameter); isP && pa.Parent() == h {
 								for i, q := range h.Params {
 									if q == pa && i < len(g.Call.Args) {
@@ -95,7 +105,7 @@ func ruleJoin(c *Ctx, rule string) {
 						for _, x := range chans {
 							if mc, ok := x.(*ssa.MakeChan); ok && mc.Parent() == f {
 								local = true
-								if n, ok := eng.ConstInt(mc.Size); ok && n == 0 {
+								if n, ok := eng.ConstInt(mc.Size); (ok && n == 0) || isClose {
 									unbuffered = true
 								}
 							}
@@ -1517,7 +1527,7 @@ func arityDischarge(c *Ctx, call *ssa.Call) (bool, string) {
 		}
 		for _, s := range sites {
 			cc := s.Ins.(ssa.CallInstruction).Common()
-			k := sliceLitLen(c, cc.Args[lvsParam])
+			k := sliceLen(c, cc.Args[lvsParam], nil, 0)
 			want, ok := labelsOfValue(c, cc.Args[vecParam], 0)
 			if !ok || k < 0 {
 				return false, "cannot determine label arity at helper call site " + p.IPos(s.Ins)
